@@ -54,7 +54,7 @@ func (p *C12) Generate(seed uint64, run int) *Case {
 		b.Input = breakInput(r, &b)
 		c.Labels = append(c.Labels, "failing-input")
 	}
-	if r.Chance(1, 6) && b.Class != "gen" {
+	if b.Class != "gen" && b.Class != "text" && r.Chance(1, 4) {
 		p.w.WithDict(r, &b)
 		c.Labels = append(c.Labels, "user-dictionary")
 	}
@@ -95,7 +95,13 @@ func (p *C12) Generate(seed uint64, run int) *Case {
 			st.Stdin = nil
 		})
 	}
-	add("outpath", func(st *Step) { st.Argv = append(st.Argv, "-o", outPath) })
+	add("outpath", func(st *Step) {
+		st.Argv = append(st.Argv, "-o", outPath)
+		if r.Chance(1, 2) {
+			// the -o target already exists and is longer than anything crd writes here
+			withExistingOutput(r, st)
+		}
+	})
 	if r.Chance(1, 3) {
 		add("maporder+outpath", func(st *Step) {
 			st.Argv = append(st.Argv, "-o", outPath)
@@ -136,6 +142,15 @@ func breakInput(r *model.Rand, b *Base) []byte {
 	default:
 		return []byte("{" + s)
 	}
+}
+
+// withExistingOutput makes the -o target a file that already exists.
+func withExistingOutput(r *model.Rand, st *Step) {
+	if st.Files == nil {
+		st.Files = map[string]*simrt.FileSpec{}
+	}
+	old := bytes.Repeat([]byte("previous content of the output file\n"), 50+r.Intn(3000))
+	st.Files[outPath] = &simrt.FileSpec{Data: old}
 }
 
 func isOutVariant(st *Step) bool {
